@@ -20,6 +20,17 @@ using namespace sqf::types;
 
 namespace
 {
+    // Keys are captured by value: an array used as key is copied at insertion, so that later
+    // changes to that array can neither lose nor change the entry (the hash of the stored key
+    // would no longer match the bucket it lives in).
+    value key_by_value(value::cref key)
+    {
+        if (key.is<t_array>())
+        {
+            return value(key.data<d_array>()->copy_deep());
+        }
+        return key;
+    }
     value createhashmap_(runtime& runtime)
     {
         return std::make_shared<d_hashmap>();
@@ -36,7 +47,7 @@ namespace
                 auto subArr = it.data<d_array>();
                 if (subArr->size() == 2)
                 {
-                    auto& key = subArr->at(0);
+                    auto key = key_by_value(subArr->at(0));
                     auto& value = subArr->at(1);
                     // ToDo: Check key-type matches
                     hashmap[key] = value;
@@ -67,7 +78,7 @@ namespace
         auto arr = right.data<d_array>();
         if (arr->size() == 2)
         {
-            auto& key = arr->at(0);
+            auto key = key_by_value(arr->at(0));
             auto& value = arr->at(1);
             // ToDo: Check key-type matches
             data->map()[key] = value;
@@ -127,7 +138,7 @@ namespace
         auto data = right.data<d_hashmap>();
         for (auto& it : data->map())
         {
-            keys.push_back(it.first);
+            keys.push_back(key_by_value(it.first));
         }
         return std::make_shared<d_array>(keys);
     }
